@@ -53,6 +53,7 @@ def run(ctx, prop, n=None):
         cnt[r["ev"]] = cnt.get(r["ev"], 0) + 1
     ctx.notes["event_counts"] = cnt
     ctx.notes["scenarios_rejected_any_property"] = len(rej)
+    ctx.notes["rejection_reasons_any_property"] = sorted({why for _, _, why, _ in rej})
     if mode == "members":
         ctx.cov["distinct_nontrivial"] = sum(1 for s in scen if sum(1 for e in s if e["ev"] == "revoke_begin" and e["parts"]) >= 1)
         ctx.cov["rule"] = ("seeded membership scenarios on kgo+kfake in a synctest bubble: up to 4 members join, close or leave at arbitrary points, topics are added to subscriptions, records keep being produced;"
